@@ -640,17 +640,17 @@ def fs_scenarios(S, tier='quick', extra=False):
         # the copy to a namesake file there (or raises FileNotFoundError).  `./check C06 --replay` with this input reproduces it.
         out.append(pool(True, True))
 
-    def names(first, second, mode):
+    def names(stem, first, second, mode):
         def run():
             a0 = np.concatenate([_b(10), _b(20)])
-            open('keep', 'wb').write(b'not an array')          # a file with the suffix-less name must never be touched
-            open('keepnpy', 'wb').write(b'not an array')
+            target = stem + '.npy'
+            decoys = sorted(x for x in ('keep', 'keepnpy', 'keep.npy.npy') if x != target)
+            for x in decoys:                       # files with the suffix-less / doubly suffixed name must never be touched
+                open(x, 'wb').write(b'not an array')
             x = S.NpyArray(first, a0)
             x.close()
-            if not os.path.exists('keep.npy') or sorted(os.listdir('.')) != ['keep', 'keep.npy', 'keepnpy']:
+            if sorted(os.listdir('.')) != sorted(decoys + [target]):
                 return 'NpyArray(%r, array) left the files %s' % (first, sorted(os.listdir('.')))
-            if open('keep', 'rb').read() != b'not an array':
-                return 'NpyArray(%r, array) wrote to the file `keep`' % first
             if mode == 'reopen':
                 y = S.NpyArray(second)
                 try:
@@ -658,35 +658,36 @@ def fs_scenarios(S, tier='quick', extra=False):
                         return 'NpyArray(%r) over the file written as %r reports %s rows, the file holds %s' % (second, first, len(y), len(a0))
                     y.append(_b(30))
                     y.flush()
-                    if _rows('keep.npy') != np.concatenate([a0, _b(30)]).tolist():
-                        return 'after reopen + append + flush the file holds %s' % (_rows('keep.npy'),)
+                    if _rows(target) != np.concatenate([a0, _b(30)]).tolist():
+                        return 'after reopen + append + flush the file holds %s' % (_rows(target),)
                 finally:
                     y.close()
             elif mode == 'truncate':
                 y = S.NpyArray(second, truncate=True)
                 try:
-                    if len(y) != 0 or y.initialized or os.path.getsize('keep.npy') != 0:
-                        return 'NpyArray(%r, truncate=True) over an existing file: len %d, file size %d' % (second, len(y), os.path.getsize('keep.npy'))
+                    if len(y) != 0 or y.initialized or os.path.getsize(target) != 0:
+                        return 'NpyArray(%r, truncate=True) over an existing file: len %d, file size %d' % (second, len(y), os.path.getsize(target))
                     y.append(_b(40))
                     y.flush()
-                    if _rows('keep.npy') != _b(40).tolist():
-                        return 'after truncate=True + append + flush the file holds %s' % (_rows('keep.npy'),)
+                    if _rows(target) != _b(40).tolist():
+                        return 'after truncate=True + append + flush the file holds %s' % (_rows(target),)
                 finally:
                     y.close()
             else:
                 y = S.NpyArray(second, _b(50))
                 try:
-                    if len(y) != BS or not np.array_equal(np.array(y[0:BS]), _b(50)) or _rows('keep.npy') != _b(50).tolist():
-                        return 'NpyArray(%r, array) over an existing file reports %d rows; file holds %s' % (second, len(y), _rows('keep.npy'))
+                    if len(y) != BS or not np.array_equal(np.array(y[0:BS]), _b(50)) or _rows(target) != _b(50).tolist():
+                        return 'NpyArray(%r, array) over an existing file reports %d rows; file holds %s' % (second, len(y), _rows(target))
                 finally:
                     y.close()
-            if open('keep', 'rb').read() != b'not an array' or open('keepnpy', 'rb').read() != b'not an array':
-                return 'a file other than keep.npy was written'
+            if sorted(os.listdir('.')) != sorted(decoys + [target]) or any(open(x, 'rb').read() != b'not an array' for x in decoys):
+                return 'a file other than %s was written: %s' % (target, sorted(os.listdir('.')))
             return None
         return dict(scenario='file-name', first=first, second=second, mode=mode), run
-    for first, second in (('keep', 'keep'), ('keep', 'keep.npy'), ('keep.npy', 'keep'), ('keep.npy', 'keep.npy')):
-        for mode in ('reopen', 'truncate', 'array'):
-            out.append(names(first, second, mode))
+    for stem in ('keep', 'keepnpy'):
+        for first, second in ((stem, stem), (stem, stem + '.npy'), (stem + '.npy', stem), (stem + '.npy', stem + '.npy')):
+            for mode in ('reopen', 'truncate', 'array'):
+                out.append(names(stem, first, second, mode))
 
     def delete(how):
         def run():
